@@ -2,7 +2,9 @@ package main
 
 import (
 	"fmt"
+	"os"
 	"runtime"
+	"runtime/debug"
 	"strings"
 
 	"github.com/teivah/majorana/proc/comp"
@@ -229,6 +231,9 @@ func runMachineApp(c config, app risc.Application, regs [32]int32, mem []int8, o
 					obs.Verdict = "panic"
 					obs.Panic = fmt.Sprint(e)
 					obs.Frame = panicFrame()
+					if os.Getenv("VERIF_STACK") != "" {
+						fmt.Fprintf(os.Stderr, "panic: %v\n%s\n", e, debug.Stack())
+					}
 				}
 			}
 		}()
